@@ -184,8 +184,26 @@ def s_iter_clash(rng, nval):
     return _mk(prog, "int_parameter_named_like_loop_iterator", rng, nval, edges={"a": list(range(-5, 15))})
 
 
+def s_sigparam_clash(rng, nval):
+    """A SIGNAL parameter named like a caller-visible compile-time int; the body combines it with constants."""
+    types = gen.Types(rng)
+    prog = [["input", "a", types.fresh(), rng.randint(-3, 12)]]
+    pname = rng.choice(["n", "k", "lim"])
+    prog.append(["int", pname, ["n", rng.randint(3, 9)]])
+    prog.append(["int", "other", ["n", rng.randint(1, 5)]])
+    body_e = rng.choice([["b", "+", ["v", pname], ["n", 1]], ["b", "*", ["v", pname], ["v", "other"]],
+                         ["c", ">", ["v", pname], ["v", "other"]], ["b", "-", ["n", 20], ["v", pname]]])
+    prog.append(["func", "f", [["Signal", pname]], [], body_e])
+    prog.append(["sig", "r0", ["p", ["call", "f", [["v", "a"]]], types.fresh()]])
+    if rng.random() < 0.5:
+        prog.append(["for", "j", ["range", 0, 2, None],
+                     [["place", "ql", "small-lamp", ["b", "*", ["v", "j"], ["n", 2]], ["n", 26], None],
+                      ["set", "ql", "enable", ["c", ">", ["call", "f", [["b", "+", ["v", "a"], ["v", "j"]]]], ["n", 3]]]]])
+    return _mk(prog, "signal_parameter_named_like_caller_int", rng, nval, edges={"a": list(range(-5, 15))})
+
+
 STRATA = [(s_scalar, 4), (s_untyped_result, 2), (s_shadow, 3), (s_entity_param, 2), (s_entity_return, 2),
-          (s_local_memory, 2), (s_nested, 3), (s_in_loop, 2), (s_int_clash, 3), (s_iter_clash, 2)]
+          (s_local_memory, 2), (s_nested, 3), (s_in_loop, 2), (s_int_clash, 3), (s_iter_clash, 2), (s_sigparam_clash, 2)]
 
 
 def gen_cases(tier, seed):
